@@ -81,5 +81,35 @@ CHECKS["C20"] = dict(
     text="The numbering function of the TOC and of the heading-listing tool proved against the outline-numbering spec "
          "with a symbolic-key dict model and loop invariants (same contract on both); TOC.fill itself is a bounded stand-in.",
     note=TB + BND, technique="contracts + loop invariants over a dict model, z3")
+CHECKS["C03"] = dict(
+    text="Part bookkeeping proved on the package model: Document.set_part makes the given bytes what save() writes (no "
+         "parsed tree stays cached), del_part refuses mandatory parts; save / reopen round trips over templates, samples, "
+         "edit histories and packagings are a bounded stand-in.",
+    note=TB + " zipfile, filesystem, lxml parse/serialise assumed." + BND,
+    technique="contracts over a package model (ghost logs), VC generation from the real AST; bounded native contracts")
+CHECKS["C04"] = dict(
+    text="Manifest coherence kernel proved: add_full_path lists a path exactly once for every entry list (no duplicates "
+         "preserved), del_part removes the manifest entry with the part; zip layout and full coherence after histories bounded.",
+    note=TB + " XPath lookups over the manifest assumed (their literals are C14's contract)." + BND,
+    technique="contracts over an entry-list model, z3; bounded native contracts")
+CHECKS["C09"] = dict(
+    text="Offset arithmetic of markup insertion proved for all text-node lists and positions (the offset is split into "
+         "node + inner offset, count + pos = position, bounds, ValueError exactly beyond the text) with a prefix-sum spec "
+         "function and a monotonicity lemma; the lxml-facing insert/remove pipelines are bounded stand-ins.",
+    note=TB + " lxml XPath text() order assumed." + BND, technique="loop invariant + spec-function lemma, z3; bounded native contracts")
+CHECKS["C13"] = dict(
+    text="Generated automatic style names proved never to collide with an existing name of the family (loop invariant over "
+         "all name lists); container dispatch, uniqueness and merge are bounded stand-ins.",
+    note=TB + " one string-theory fact assumed (str.from_int yields digits); get_styles (XPath) assumed." + BND,
+    technique="loop invariant over a string list, z3; bounded native contracts")
+CHECKS["C16"] = dict(
+    text="Counting form of replace() proved: the result is the sum over the individual text runs of the per-run match "
+         "counts, for all run lists (re.findall abstract); replacement and search behaviour are bounded stand-ins.",
+    note=TB + " re assumed." + BND, technique="loop invariant + prefix-sum spec function, z3; bounded native contracts")
+CHECKS["C17"] = dict(
+    text="Row.rstrip proved for all run-length rows: removes exactly the maximal suffix of empty cells, every remaining "
+         "cell keeps node, repeat and content, invariant re-established through make_cache_map (also proved); transpose, "
+         "optimize_width and spans are bounded stand-ins; the CSV law is not decided (csv.Sniffer heuristic).",
+    note=TB + BND, technique="loop invariants over the abstract XML model, z3; bounded native contracts")
 NOT_APPLICABLE = {p: "not yet under contract in this revision (work in progress; see DESIGN.md §4 for the plan)"
-                  for p in ["C03", "C04", "C09", "C13", "C16", "C17"]}
+                  for p in []}
